@@ -49,7 +49,9 @@ def gen_cases(rng, tier, driver, corr, stats, families):
             else:
                 if e == "AI":
                     e = "AE"
-                extra = (" ctor BA" if rng.random() < 0.5 else " setkey PTR") if e == "AEC" else (rng.choice([" ctor", " setkey"]) if e in ("SIVC", "ISAPC") else "")
+                extra = (" ctor BA" if rng.random() < 0.5 else " setkey PTR") if e == "AEC" else (rng.choice([" ctor", " setkey", " setkeybad"]) if e in ("SIVC", "ISAPC") else "")
+                if e == "AEM" and rng.random() < 0.3:
+                    extra = rng.choice([" RK", " RK2"])      # masked key re-randomized between creation and use
                 corr.one("%s %s DEC %s %s %s %s%s" % (e, v, hx(k2), hx(n2), hx(ad2), hx(ct2), extra), "%s-%s-DEC-%s" % (e, v, kind))
 
         if fam == "ISAP":
@@ -63,6 +65,11 @@ def gen_cases(rng, tier, driver, corr, stats, families):
         thin = 1 if (tier == "thorough" or fam != "ISAP") else 4   # quick tier: every 4th nonce/key bit for ISAP (rotating start)
         off = rng.randrange(thin)
         emit("valid", k, n, ad, ct)
+        if fam == "AE":
+            # the unmodified ciphertext through the masked entry point with the masked key re-randomized before use (the key it stands
+            # for must not change)
+            corr.one("AEM %s DEC %s %s %s %s %s" % (v, hx(k), hx(n), hx(ad), hx(ct), rng.choice(["RK", "RK2"])), "AEM-%s-DEC-valid-rerandomized" % v)
+            stats["kinds"]["valid-rerandomized-key"] = stats["kinds"].get("valid-rerandomized-key", 0) + 1
         for bit in range(128):                               # every tag bit
             emit("tagbit", k, n, ad, ct[:-16] + flip(ct[-16:], bit))
         # the same difference in two tag bytes at word distances: a comparison that combines per-word differences must not let them cancel
@@ -94,7 +101,9 @@ def gen_cases(rng, tier, driver, corr, stats, families):
         plan = []
         for v, (klen, rate) in FAMILIES["AE"].items():
             for lens in ([5, 3], [rate - 1, rate + 1, 1], [1, 0, 2 * rate + 3], [rate + 3, rate - 3]) + (() if tier == "quick" else ([0, 7, 0, 9], [3 * rate + 1, 2])):
-                k, n0 = rnd(rng, klen), rnd(rng, 12) + b"\xff\xff\xff" + bytes([rng.randrange(250, 256)])
+                # the session nonce is about to carry: out of the low 4 bytes, out of the low 8 bytes (into the upper half), or all the way round
+                k = rnd(rng, klen)
+                n0 = rng.choice([rnd(rng, 12) + b"\xff" * 3, rnd(rng, 8) + b"\xff" * 7, rnd(rng, 8) + b"\xff" * 7, b"\xff" * 15]) + bytes([rng.randrange(250, 256)])
                 pk = []
                 for i, L in enumerate(lens):
                     ni = ((int.from_bytes(n0, "big") + i) % (1 << 128)).to_bytes(16, "big")
